@@ -79,3 +79,9 @@ func ZZ_C05_comp() {
 	}
 	zzReach("comp end")
 }
+
+// replay entries of this file (registered here so that the file can be left out
+// on its own when it does not compile against the tree under check)
+func init() {
+	zzEntries["ZZ_C05_comp"] = ZZ_C05_comp
+}
